@@ -8,7 +8,7 @@ PROP = {
                  "fp_least", "fp_least_backward", "none_only_at_entry", "fp_terminates", "fp_terminates_backward", "fp_budget_suffices",
                  "fp_no_maxsteps", "fp_budget", "fp_maxsteps_iff", "run_never_out_of_fuel", "fp_error_not_unsound",
                  "fp_error_not_unsound_backward", "fp_ordering_origin", "fp_monotone_no_error", "fp_complete", "fp_complete_backward",
-                 "fp_good", "fp_least_rel", "fp_monotone_no_error_rel", "fp_complete_rel",
+                 "fp_good", "fp_least_rel", "fp_monotone_no_error_rel", "fp_complete_rel", "fp_terminates_rel", "fp_budget_suffices_rel",
                  "fp_forward_solution", "fp_backward_solution", "il_location_hyps_forward", "il_location_hyps_backward", "fp_forward_budget", "fp_backward_terminates"],
     "rule": "one xoshiro256** stream per (seed,index): a random IL function from ilgen::gen_function (30% 'tiny' stream of 1-2 blocks for the "
             "leastness enumeration, else 2-6 blocks; loops, self-loops, empty blocks, unreachable blocks; entry and exit moved to a random block "
